@@ -51,6 +51,15 @@ inductive Exc
   | closedError    -- `TermImageError` from `_close_validated`
   | sizeError      -- `InvalidSizeError` / `ValueError` out of size validation
   | urlNotFound | unidentified | connection | typeError | valueError
+  /- classes an injected failure can have besides `pil` (a ValueError), chosen for the way
+     `ImageIterator.__next__` treats them -/
+  | attrError          -- an AttributeError (message not about `_animator`)
+  | attrAnimator       -- an AttributeError whose message ends in `'_animator'`
+  | stopIter           -- a StopIteration raised inside the generator (PEP 479 → RuntimeError)
+  | custom             -- some other Exception subclass
+  | keyboardInterrupt  -- a BaseException: no `except Exception` clause sees it
+  | runtimeError       -- "generator raised StopIteration"
+  | stopIteration      -- what `__next__` raises for "exhausted or closed"
 deriving DecidableEq, Repr
 
 def Exc.name : Exc → String
@@ -58,6 +67,9 @@ def Exc.name : Exc → String
   | .sizeError => "InvalidSizeError" | .urlNotFound => "URLNotFoundError"
   | .unidentified => "UnidentifiedImageError" | .connection => "ConnectionError"
   | .typeError => "TypeError" | .valueError => "ValueError"
+  | .attrError => "FaultAttr" | .attrAnimator => "FaultAttrAnimator" | .stopIter => "FaultStop"
+  | .custom => "FaultCustom" | .keyboardInterrupt => "FaultKI" | .runtimeError => "RuntimeError"
+  | .stopIteration => "StopIteration"
 
 inductive Ev
   | call (c : Call) (on : Option Nat) (made : Option Nat)   -- a Pillow call: receiver, created object
@@ -85,6 +97,7 @@ structure World where
   imgClosed : Bool := false            -- `image._closed`
   temp : Bool := false                 -- the private temporary copy of a URL image exists
   isUrl : Bool := false                -- `_source_type is ImageSource.URL`
+  faultExc : Exc := .pil               -- the class of the exception the planned fault raises
 
 def World.reg (w : World) (r : Reg) : Option Nat := w.regs r
 def World.setReg (w : World) (r : Reg) (v : Option Nat) : World :=
@@ -207,8 +220,19 @@ inductive Prog
   | seq (p q : Prog)
   | tryFinally (body fin : Prog)
   /-- `try: body  except Exception: handler; raise [wrap from e]` — `wrap = none` re-raises the
-      exception that was caught -/
+      exception that was caught; a `BaseException` (KeyboardInterrupt) is not caught -/
   | tryExcept (body handler : Prog) (wrap : Option Exc)
+  /-- `ImageIterator.__next__` around `next(self._animator)`:
+      ```
+      except StopIteration: self.close(); raise StopIteration(…)          # the generator returned
+      except AttributeError as e:
+          if str(e).endswith("'_animator'"): raise StopIteration(…)       # `_animator` was deleted
+          else: self.close(); raise
+      except Exception: self.close(); raise
+      ```
+      (exhaustion itself is part of `eofBody`; a StopIteration raised *inside* the generator
+      reaches `__next__` as RuntimeError) -/
+  | nextGuard (body : Prog)
   | raise (e : Exc)
   /-- `with <create c> as to: body` — `__exit__` closes the object that was created, whatever
       `to` is bound to afterwards -/
@@ -231,7 +255,7 @@ def Prog.run : Prog → Option Nat → World → Outcome
   | .done, f, w => ⟨w, f, none⟩
   | .act a, f, w =>
     match a.call?, f with
-    | some c, some 0 => ⟨w.emit (.fault c (a.receiver w)), none, some .pil⟩
+    | some c, some 0 => ⟨w.emit (.fault c (a.receiver w)), none, some w.faultExc⟩
     | some _, some (k + 1) => ⟨a.apply w, some k, none⟩
     | _, f => ⟨a.apply w, f, none⟩
   | .seq p q, f, w =>
@@ -247,13 +271,22 @@ def Prog.run : Prog → Option Nat → World → Outcome
     let o := body.run f w
     match o.exc with
     | none => o
+    | some .keyboardInterrupt => o
     | some e =>
       let o2 := handler.run o.f o.w
       ⟨o2.w, o2.f, match o2.exc with | some e2 => some e2 | none => some (wrap.getD e)⟩
+  | .nextGuard body, f, w =>
+    let o := body.run f w
+    match o.exc with
+    | none => o
+    | some .keyboardInterrupt => o                                    -- not an Exception: nothing runs
+    | some .attrAnimator => ⟨o.w, o.f, some .stopIteration⟩           -- taken for "closed": no close()
+    | some .stopIter => ⟨Act.iterClose.apply o.w, o.f, some .runtimeError⟩
+    | some e => ⟨Act.iterClose.apply o.w, o.f, some e⟩
   | .raise e, f, w => ⟨w, f, some e⟩
   | .withNew c role to body, f, w =>
     match f with
-    | some 0 => ⟨w.emit (.fault c none), none, some .pil⟩
+    | some 0 => ⟨w.emit (.fault c none), none, some w.faultExc⟩
     | _ =>
       let f' := match f with | some (k + 1) => some k | _ => f
       let (w1, i) := w.alloc role
